@@ -18,7 +18,7 @@ RULE = (
     "load_adj_dict: dicts over a pool of 1-5 vertices (the last one a Universe used as a vertex) with empty rows, "
     "self entries, repeated entries, rows given as list / tuple / one-shot iterator / generator; load_adj_matrix: "
     "n x n (n = 0..5) cells drawn from arbitrary truthy/falsy values (0, 1, 2, -1, '', 'x', None, [], [0], 0.0, "
-    "nan, object()), side array; link type in 6 classes; vertices carry prior links (to pool and non-pool vertices) "
+    "nan, object()), side array; link type in 12 classes (incl. a multiply-inheriting one, one deriving from both edge classes, a falsy one and one whose constructor names its positional parameters differently); vertices carry prior links (to pool and non-pool vertices) "
     "and prior universes.  Error inputs: ragged / non-square matrices, side array too short / too long.  Oracle: "
     "the result is a new Universe whose vertices are the named vertices in first-mention (side-array) order; the "
     "links that did not exist before are exactly one per listed pair / truthy cell, type(l) is the requested class, "
@@ -54,7 +54,7 @@ def strategy(tier):
         },
         st.integers(1, 5),
         st.lists(st.tuples(st.integers(0, 4), st.lists(st.integers(0, 4), max_size=5)), max_size=5),
-        st.integers(0, 5), prior, st.lists(st.integers(0, 4), max_size=3), st.integers(0, 3),
+        st.integers(0, 11), prior, st.lists(st.integers(0, 4), max_size=3), st.integers(0, 3),
     )
     m = st.builds(
         lambda n, cells, cls, prior, bad, badpos, pu: {
@@ -63,7 +63,7 @@ def strategy(tier):
         },
         st.integers(0, 5),
         st.lists(st.lists(st.integers(0, 13), max_size=5), max_size=5),
-        st.integers(0, 5), prior, st.sampled_from([0, 0, 0, 1, 2, 3, 4]), st.integers(0, 7), st.lists(st.integers(0, 4), max_size=3),
+        st.integers(0, 11), prior, st.sampled_from([0, 0, 0, 1, 2, 3, 4]), st.integers(0, 7), st.lists(st.integers(0, 4), max_size=3),
     )
     return st.one_of(d, m)
 
